@@ -447,41 +447,41 @@ def _patterns(w, rng):
 
 
 def bs_script(cap, rng, nseq, exhaustive_small):
-    """field sequences whose total fits the capacity: every (start offset, width) pair, boundary values"""
+    """field sequences whose total fits the capacity: every (start offset, width) pair - the offset produced by a padding field
+    and by opening the stream at that start cursor -, each also followed by data (ones), boundary values; random sequences"""
     lines = []
-    seqs = []
+    seqs = []       # (start cursor or None, [field widths; negative = all ones])
     widths = list(range(1, min(32, cap) + 1))
     if exhaustive_small:
         for off in range(0, min(8, cap)):
             for w in widths:
-                if off + w <= cap:
-                    seqs.append(([off] if off else []) + [w])
-    for _ in range(nseq):
-        tot, s = 0, []
-        while tot < cap and len(s) < 6:
+                if off + w > cap:
+                    continue
+                tail = min(8, cap - off - w)
+                variants = [[w]] + ([[w, -tail]] if tail >= 1 else [])
+                for fields in variants:
+                    seqs.append((None, ([off] if off else []) + fields))
+                    if off:
+                        seqs.append((off, fields))
+    for k in range(nseq):
+        at = rng.randrange(0, min(cap, 24)) if k % 3 == 2 else None
+        tot, fs = (at or 0), []
+        while tot < cap and len(fs) < 6:
             w = rng.choice(widths)
             if tot + w > cap:
                 break
-            s.append(w)
+            fs.append(w)
             tot += w
-        if s:
-            seqs.append(s)
-    for n, s in enumerate(seqs):
-        # every third sequence is written by a stream opened at a start cursor (the first field of the sequence becomes the offset)
-        at = s[0] if n % 3 == 2 and len(s) >= 2 else None
-        if at is not None:
-            lines.append("bs newat %d" % at)
-            s = s[1:]
-        else:
-            lines.append("bs new")
-        vals = []
-        for k, w in enumerate(s):
-            v = rng.choice(_patterns(w, rng)) if k < len(s) - 1 or not exhaustive_small else None
-            if v is None:
-                v = rng.choice(_patterns(w, rng))
-            vals.append(v)
+        if fs:
+            seqs.append((at, fs))
+    for at, fs in seqs:
+        lines.append("bs new" if at is None else "bs newat %d" % at)
+        ones = [w < 0 for w in fs]
+        fs = [abs(w) for w in fs]
+        for k, w in enumerate(fs):
+            v = ((1 << w) - 1) if ones[k] else rng.choice(_patterns(w, rng))
             lines.append("bs write %d %d %d" % (w, v & 0xFFFF, v >> 16))
-        for w in s:
+        for w in fs:
             lines.append("bs read %d" % w)
     return "\n".join(lines) + "\n", len(seqs)
 
